@@ -123,7 +123,10 @@ class ExcGen:
         if r.random() < 0.5 and vars_:
             v = r.choice(vars_)
             body.append(ExprS(Assign(Var(v), Num(self.uniq()))))
-        exit_kind = r.choice(['raise', 'raise', 'raise', 'complete', 'break', 'continue', 'return', 'nested'])
+        exit_kind = r.choice(['raise', 'raise', 'raise', 'complete', 'break', 'continue', 'return', 'nested',
+                              'return_raises', 'return_raises'])
+        if exit_kind == 'return_raises' and not in_fn:
+            exit_kind = 'raise'
         if exit_kind == 'break' and not in_loop:
             exit_kind = 'raise'
         if exit_kind == 'continue' and not in_loop:
@@ -149,6 +152,13 @@ class ExcGen:
             body.append(Continue())
         elif exit_kind == 'return':
             body.append(Return(Num(self.uniq())))
+        elif exit_kind == 'return_raises':
+            # the returned expression itself raises: the handler of this try must still be active
+            e = r.choice([Bin('-', Nil(), Num(1)), Index(ListLit([Num(1)]), Num(7)),
+                          Call(Lambda(['q'], [Raise(Call(Var('E1'), [Str('rr%d' % self.uniq())]))], False), [Num(1)]),
+                          Bin('+', Num(1), Call(Lambda([], [Raise(Call(Var('Error'), [Str('rr%d' % self.uniq())]))], False), []))])
+            cls = 'RuntimeError' if e.k == 'bin' and e.a == '-' else ('IndexError' if e.k == 'index' else ('E1' if e.k == 'call' else 'Error'))
+            body.append(Return(e))
         else:
             body.append(Print([Str('completed')]))
         clauses = self.catches(cls, vars_, depth)
